@@ -159,6 +159,18 @@ CLAIMED['C12'] = (
     'targets x the shared value generator; solver-driven exploration with every path replayed.',
     'non-exhaustive (stated): EXPLORED-NO-VIOLATION per target; float -> int exact only for the picked float values',
     'symbolic execution of the real code (CrossHair primitives + z3), metamorphic assertions across option sets, concrete replay')
+CLAIMED['C13'] = (
+    'Symbolic execution of the real generator and parser: (outputs) for 41 JSON-expressible, negation-free types T(x) is JSON-encoded '
+    'with the library encoder and validated against JsonSchemaGenerator(T, output=True)() by a traceable mini validator (cross-checked '
+    'against the jsonschema library on every witness); (structure) for 9 data-class declarations x class-level mode x addition policy '
+    'the input schema is compared with parser behaviour probed on the same class: a solver-picked key is listed <=> changing its value '
+    'changes the outcome, a solver-picked property is in required <=> its absence is an AbsenceError, additionalProperties <=> unknown '
+    'keys dropped / kept / rejected / converted, and the parser output validates against the output schema; the generator\'s mode= '
+    'argument must agree with the class-options route. Metaschema validity of every emitted document is a concrete side condition '
+    'checked with the jsonschema library in the replay.',
+    'structure obligations exhaust their (finite) trees; outputs obligations are explored (stated); known finding '
+    'K-C13-decimal-js-unsafe-string is reported, not hidden',
+    'symbolic execution of the real code (CrossHair primitives + z3) with behavioural probing and a validated mini JSON-Schema validator, concrete replay')
 NOT_APPLICABLE = {}
 
 def main():
